@@ -3,6 +3,7 @@ import ChaiVerif.Drv.Lit
 import ChaiVerif.Drv.Stl
 import ChaiVerif.Drv.File
 import ChaiVerif.Drv.Json
+import ChaiVerif.Drv.Prelude
 open ChaiVerif.Drv
 
 def main (args : List String) : IO UInt32 := do
@@ -12,5 +13,6 @@ def main (args : List String) : IO UInt32 := do
   | ["stl"] => lineLoop stlLine; return 0
   | ["file"] => lineLoop fileLine; return 0
   | ["json"] => lineLoop jsonLine; return 0
+  | ["prelude"] => lineLoop preludeLine; return 0
   | ["arith-abi"] => (abiLines.forM IO.println); return 0
   | _ => IO.eprintln "usage: chaimodel <mode>"; return 2
